@@ -117,4 +117,5 @@ def run_plain(ctx, rng, spec, start, script, host_cls=HsmEventProcessor, spied=F
         return [('C02', 'C02/actions-on-non-transition', 'event %s (%s) in %s ran %r' % (sn, kind, names[prev], ga), wit_k)]
       if chart.state_name != names[prev]:
         return [('C02', 'C02/state-changed-on-non-transition', 'event %s (%s) in %s left chart in %s' % (sn, kind, names[prev], chart.state_name), wit_k)]
+  ctx.count('state_queries_made_by_actions', run.queries_in_actions)
   return []
